@@ -304,7 +304,7 @@ SKIP = {"cache_clear", "copy", "undirected_copy", "permuted_copy", "splitted_cop
         "nsi_degree_cumulative_histogram", "print_admittance", "get_admittance", "sparse_admittance",
         "set_random_links_by_distance", "randomly_rewire_geomodel_I", "randomly_rewire_geomodel_II",
         "randomly_rewire_geomodel_III", "set_node_weight_type", "save_for_cgv", "Load",
-        "link_distance_distribution", "inaverage_link_distance", "outaverage_link_distance",
+        "link_distance_distribution",
         "area_weighted_connectivity_distribution", "inarea_weighted_connectivity_distribution",
         "outarea_weighted_connectivity_distribution",
         "area_weighted_connectivity_cumulative_distribution",
@@ -414,6 +414,16 @@ def equivariance(ctx, cname, make, perm, measures, n, replay_base, variants=Fals
         shown = m if not kw else f"{m}({', '.join(f'{k}={v!r}' for k, v in kw.items())})"
         if "w" in kw.values() and net.n_links == 0:
             continue
+        if kw.get("parallelize"):
+            # each call forks a process pool (seconds on a loaded machine): a bounded number of
+            # (graph, permutation) pairs per run takes this path; the pool split itself is C19's
+            left = getattr(ctx, "_pool_calls_left", None)
+            if left is None:
+                left = 3 if ctx.tier == "quick" else 40
+            if left <= 0:
+                ctx.count(f"{cname}:parallelize-variant-not-run")
+                continue
+            ctx._pool_calls_left = left - 1
         try:
             v = quiet(getattr(net, m), **kw)
         except Exception:  # noqa
@@ -580,12 +590,14 @@ def run(ctx):
             equivariance(ctx, "Network", mk_net, perm, meas["Network"], n, base,
                          variants=(not quick) or rng.random() < 0.12)
             if A.sum() > 0:
+                # round 3: non-default call patterns (geometry_corrected=True, ...) of the
+                # spatial / geo measures as well; they are cheap, so on every pair
                 equivariance(ctx, "SpatialNetwork", mk_spatial, perm,
                              [m for m in meas["SpatialNetwork"] if m not in meas["Network"]], n,
-                             dict(base, positions=pos.tolist()))
+                             dict(base, positions=pos.tolist()), variants=True)
                 equivariance(ctx, "GeoNetwork", mk_geo, perm,
                              [m for m in meas["GeoNetwork"] if m not in meas["SpatialNetwork"]], n,
-                             dict(base, lat=lat.tolist(), lon=lon.tolist()))
+                             dict(base, lat=lat.tolist(), lon=lon.tolist()), variants=True)
             # node-list arguments are renumbered with the network
             if not directed and n >= 3:
                 interacting(ctx, A, w, W, g0, perm, base)
@@ -754,33 +766,54 @@ def interacting(ctx, A, w, W, g0, perm, base):
                  "cross_adjacency", "cross_path_lengths", "cross_transitivity_sparse",
                  "cross_local_clustering_sparse", "cross_global_clustering_sparse",
                  "nsi_cross_edge_density", "nsi_cross_global_clustering",
-                 "nsi_cross_closeness_centrality", "cross_link_attribute"):
+                 "nsi_cross_closeness_centrality", "cross_link_attribute",
+                 "cross_indegree", "cross_outdegree", "total_cross_degree", "cross_degree_density",
+                 "average_cross_closeness", "local_efficiency", "global_efficiency",
+                 "nsi_cross_average_path_length", "nsi_cross_betweenness",
+                 # measures of one group (round 3)
+                 "internal_adjacency", "internal_path_lengths", "number_internal_links",
+                 "internal_link_density", "internal_global_clustering",
+                 "internal_average_path_length", "internal_degree", "internal_indegree",
+                 "internal_outdegree", "internal_closeness", "internal_betweenness",
+                 "nsi_internal_degree", "nsi_internal_local_clustering",
+                 "nsi_internal_closeness_centrality", "internal_link_attribute"):
+        if not hasattr(InteractingNetworks, name):
+            continue
         args_a, args_b = (L1, L2), (P1, P2)
         if name == "cross_link_attribute":
             args_a, args_b = ("w", L1, L2), ("w", P1, P2)
-        try:
-            va = quiet(getattr(a, name), *args_a)
-        except Exception:  # noqa
-            ctx.count("InteractingNetworks:raises")
-            continue
-        try:
-            vb = quiet(getattr(b, name), *args_b)
-        except Exception as ex:  # noqa
-            ctx.fail({"kind": "raises-on-permuted", "class": "InteractingNetworks", "measure": name},
-                     f"InteractingNetworks.{name} raises {type(ex).__name__} on the renumbered network",
-                     dict(base, measure=name, permutation=list(perm), node_list1=L1, node_list2=L2))
-            continue
-        ctx.count("InteractingNetworks:measures-compared")
-        # results are indexed by position in the node lists, which correspond one to one —
-        # except per-node arrays over the whole network, which are permuted
-        if np.asarray(va).shape == (n,) and len(L1) != n:
-            va = np.asarray(va)[idx]
-        if not same_val(va, vb):
-            ctx.fail({"kind": "not-equivariant", "class": "InteractingNetworks", "measure": name},
-                     f"InteractingNetworks.{name}(L1, L2) changes when nodes and node lists are renumbered",
-                     dict(base, measure=name, permutation=list(perm), node_list1=L1, node_list2=L2,
-                          expected=np.asarray(va, dtype=float).round(6).tolist(),
-                          observed=np.asarray(vb, dtype=float).round(6).tolist()))
+        elif name == "internal_link_attribute":
+            args_a, args_b = ("w", L1), ("w", P1)
+        elif "internal" in name:
+            args_a, args_b = (L1,), (P1,)
+        # round 3: the non-default call patterns too (link_attribute="w", flipped booleans)
+        for kw in [{}] + (arg_variants(InteractingNetworks, name) if A.sum() > 0 else []):
+            shown = name if not kw else f"{name}({', '.join(f'{k}={v!r}' for k, v in kw.items())})"
+            try:
+                va = quiet(getattr(a, name), *args_a, **kw)
+            except Exception:  # noqa
+                ctx.count("InteractingNetworks:raises")
+                continue
+            try:
+                vb = quiet(getattr(b, name), *args_b, **kw)
+            except Exception as ex:  # noqa
+                ctx.fail({"kind": "raises-on-permuted", "class": "InteractingNetworks", "measure": name},
+                         f"InteractingNetworks.{shown} raises {type(ex).__name__} on the renumbered network",
+                         dict(base, measure=name, kwargs=kw, permutation=list(perm), node_list1=L1,
+                              node_list2=L2))
+                continue
+            ctx.count("InteractingNetworks:measures-compared" + (":non-default-args" if kw else ""))
+            # results are indexed by position in the node lists, which correspond one to one —
+            # except per-node arrays over the whole network, which are permuted
+            if np.asarray(va).shape == (n,) and len(L1) != n:
+                va = np.asarray(va)[idx]
+            if not same_val(va, vb):
+                ctx.fail({"kind": "not-equivariant", "class": "InteractingNetworks", "measure": name},
+                         f"InteractingNetworks.{shown}(L1, L2) changes when nodes and node lists are "
+                         f"renumbered",
+                         dict(base, measure=name, kwargs=kw, permutation=list(perm), node_list1=L1,
+                              node_list2=L2, expected=np.asarray(va, dtype=float).round(6).tolist(),
+                              observed=np.asarray(vb, dtype=float).round(6).tolist()))
 
 
 def resistive(ctx, A, perm, rng, base):
